@@ -70,7 +70,9 @@ class DictProvider(LoaderProvider, DumperProvider):
 
             result = {}
             for k, v in items:
-                result[key_loader(k)] = value_loader(v)
+                # key must be loaded before value like at other debug trail modes
+                loaded_key = key_loader(k)
+                result[loaded_key] = value_loader(v)
 
             return result
 
